@@ -2,6 +2,7 @@
 // qualified, result independent of the order/grouping in which qualifiers were applied.
 #include "common.hpp"
 #include "inspect.hpp"
+#include "static_type.hpp"
 #include <ipr/impl>
 #include <unordered_map>
 
@@ -59,6 +60,10 @@ struct Harness {
          (void)r;
          ctx().viol(std::string("empty-set-accepted:") + what, "get_qualified with an empty qualifier set returned a node instead of refusing");
       } catch (...) { ctx().count("empty_set_refused"); }
+      try {
+         with_static_type<const Qualified*>(x, [&](const auto& y) { return &lex.get_qualified(Qualifiers{}, y); });
+         ctx().viol(std::string("empty-set-accepted:") + what, "get_qualified with an empty qualifier set returned a node instead of refusing");
+      } catch (...) { ctx().count("empty_set_refused"); }
    }
 
    // apply qualifier sets q[0..k) successively to T, check the normal form
@@ -71,7 +76,12 @@ struct Harness {
       for (int i = 0; i < k; ++i) {
          S |= q[i];
          h = hash_mix(h, q[i]);
-         const Qualified& R = lex.get_qualified(Qualifiers(q[i]), *cur);
+         // alternately pass the operand as `const Type&` and under its most-derived interface type (what a chained client call passes)
+         const bool derived = ((h >> 7) + std::uint64_t(i)) % 2 == 0;
+         const Qualified& R = derived
+            ? *with_static_type<const Qualified*>(*cur, [&](const auto& x) { return &lex.get_qualified(Qualifiers(q[i]), x); })
+            : lex.get_qualified(Qualifiers(q[i]), *cur);
+         ctx().count(derived ? "get_qualified_calls:operand-as-most-derived-type" : "get_qualified_calls:operand-as-Type");
          ctx().count("get_qualified_calls");
          if (i > 0) ctx().count("requalifications");
          auto why = [&](const char* what) {
@@ -123,7 +133,7 @@ static void body(Ctx& C)
           "types of every kind, interleaved with unrelated type requests; sampled part: random sequences of length <= 12 including "
           "extended high bits; every intermediate result is checked (qualifiers == union so far, main variant == T and not Qualified, "
           "same node for the same (union,T) whatever the route); empty sets are requested on every kind and must be refused");
-   C.need("requalifications"); C.need("empty_set_refused"); C.need("table_validations"); C.need("distinct_normal_forms");
+   C.need("requalifications"); C.need("get_qualified_calls:operand-as-most-derived-type"); C.need("empty_set_refused"); C.need("table_validations"); C.need("distinct_normal_forms");
    Harness H(C.seed);
    // exhaustive: sequences of non-empty subsets, length <= 4; base types split across workers
    long long job = 0;
